@@ -304,6 +304,32 @@ async fn run_op(c: &mut ACase, idx: usize, toks: &[&str]) -> String {
         ["movefile", p, q] => { let p = loc!(p); let q = loc!(q); res_s(&p.move_file(&q).await, unit_s) }
         ["copydir", p, q] => { let p = loc!(p); let q = loc!(q); res_s(&p.copy_dir(&q).await, |n| format!("n:{}", n)) }
         ["movedir", p, q] => { let p = loc!(p); let q = loc!(q); res_s(&p.move_dir(&q).await, unit_s) }
+        ["walkrm", p, k, q] => {
+            let p = loc!(p);
+            let q = loc!(q);
+            match p.walk_dir().await {
+                Err(e) => format!("err:{}", err_s(&e)),
+                Ok(mut it) => {
+                    let k: usize = k.parse().unwrap();
+                    let mut items = vec![];
+                    let mut push = |x: VfsResult<AsyncVfsPath>| match x {
+                        Ok(q) => items.push(format!("o{}", hex(q.as_str().as_bytes()))),
+                        Err(e) => items.push(format!("e{}@{}", kind_s(e.kind()), epath_s(e.path()))),
+                    };
+                    for _ in 0..k {
+                        match it.next().await { Some(x) => push(x), None => break }
+                    }
+                    if q.remove_file().await.is_err() { let _ = q.remove_dir_all().await; }
+                    let mut n = 0;
+                    while let Some(x) = it.next().await {
+                        n += 1;
+                        if n > 100000 { break; }
+                        push(x);
+                    }
+                    format!("ok:items:{}", items.join(","))
+                }
+            }
+        }
         ["walkdir", p] => {
             let p = loc!(p);
             match p.walk_dir().await {
